@@ -205,6 +205,9 @@ pub enum LayoutKind {
     WsLineBlock,
     /// as WsLineBlock but `Layout: LayoutItem+`
     WsLineBlockPlus,
+    /// whitespace + a layout item made of TWO tokens (`~` `^`): the layout parser can fail
+    /// after it has already shifted something
+    WsPair,
 }
 
 #[derive(Clone, Debug, PartialEq, Serialize, Deserialize)]
@@ -410,6 +413,7 @@ pub fn layout_rules(l: LayoutKind) -> &'static str {
         LayoutKind::WsLineBlockPlus => {
             "Layout: LayoutItem+;\nLayoutItem: LWs | LComment;\nLComment: '/*' LCorncs '*/' | LCommentLine;\nLCorncs: LCornc*;\nLCornc: LComment | LNotComment | LWs;\n"
         }
+        LayoutKind::WsPair => "Layout: LayoutItem*;\nLayoutItem: LWs | LTilde LCaret;\n",
     }
 }
 
@@ -420,6 +424,7 @@ pub fn layout_terms(l: LayoutKind) -> &'static str {
         LayoutKind::WsLineBlock | LayoutKind::WsLineBlockPlus => {
             "LOComment: '/*';\nLCComment: '*/';\nLWs: /\\s+/;\nLCommentLine: /\\/\\/.*/;\nLNotComment: /((\\*[^\\/])|[^\\s*\\/]|\\/[^\\*])+/;\n"
         }
+        LayoutKind::WsPair => "LWs: /\\s+/;\nLTilde: '~';\nLCaret: '^';\n",
     }
 }
 
